@@ -95,7 +95,7 @@ def render(b, rng, split=True, docs=True, mode="lib"):
 
     for ev in events:
         e = ev["e"]
-        if depth == 0 and e != "Close":
+        if depth == 0 and e != "Close" and not (e == "BlockOpen" and ev["kind"] == "else"):
             if split and cur == "lib" and seen_top >= split_at:
                 cur = "main"
             seen_top += 1
@@ -423,26 +423,22 @@ def tlc_programs(tier, seed, wd):
         trans += r.generated
     # long programs: seeded random walks of the same generator
     for depth, num in ((9, 40 if quick else 400), (16, 30 if quick else 300), (28, 20 if quick else 200)):
-        r = common.run_tlc("Scope.tla", cfg % depth, os.path.join(wd, "sim%d" % depth), workers=8, timeout=3600, simulate=num, depth=depth + 1, seed=seed)
+        r = common.run_tlc("Scope.tla", cfg % depth, os.path.join(wd, "sim%d" % depth), workers=1, timeout=3600, simulate=num * 8, depth=depth + 1, seed=seed)
         common.tlc_must(r, "Scope simulate %d" % depth)
-        seen = set()
+        seen = {}
         for x in r.records:
-            key = json.dumps(x, sort_keys=True)
-            if key not in seen:
-                seen.add(key)
-                out.append(x)
+            seen.setdefault(json.dumps(x, sort_keys=True), x)
+        out += [seen[k_] for k_ in sorted(seen)]
         states += r.generated
         trans += r.generated
     # statement nesting in depth (nested defsets, defs after an inner block closed, else branches ...)
     for depth, num in ((10, 30 if quick else 300), (16, 30 if quick else 300)):
-        r = common.run_tlc("Scope.tla", cfgn % depth, os.path.join(wd, "nest%d" % depth), workers=8, timeout=3600, simulate=num, depth=depth + 1, seed=seed)
+        r = common.run_tlc("Scope.tla", cfgn % depth, os.path.join(wd, "nest%d" % depth), workers=1, timeout=3600, simulate=num * 8, depth=depth + 1, seed=seed)
         common.tlc_must(r, "Scope nest %d" % depth)
-        seen = set()
+        seen = {}
         for x in r.records:
-            key = json.dumps(x, sort_keys=True)
-            if key not in seen:
-                seen.add(key)
-                out.append(x)
+            seen.setdefault(json.dumps(x, sort_keys=True), x)
+        out += [seen[k_] for k_ in sorted(seen)]
         states += r.generated
         trans += r.generated
     return out, states, trans
